@@ -6,7 +6,7 @@ import ast
 
 from sa import dataflow as df
 from sa import loop as lp
-from sa.krylov import buffer_dtype_obligations, closure, first_column_obligation, nospace, norm_written, projection_convention
+from sa.krylov import basis_aliasing, buffer_dtype_obligations, clip_certificate, closure, first_column_obligation, nospace, norm_written, projection_convention
 
 
 def fn(idx, rep, name):
@@ -23,10 +23,8 @@ def run(idx, rep, tier):
         return
     a = fact.params[0]
     # ---- cap
-    asg = df.assignments(fact.node)
-    clip = [v for v, p, st in asg.get("max_iters", []) if isinstance(v, ast.Call) and nospace(v.func) == "min"]
-    ok = bool(clip) and "max_iters" in [nospace(x) for x in clip[0].args] and any(nospace(x).replace("[-1]", "[0]").replace("[-2]", "[0]").replace("[1]", "[0]") == f"{a}.shape[0]" for x in clip[0].args)
-    rep.decide(ok, "loop-cap", "arnoldi_fact:clip", f"max_iters is clipped to `{ast.unparse(clip[0]) if clip else '-'}`" + ("" if ok else f"; required min(max_iters, {a}.shape[0])"),
+    ok, clip_txt = clip_certificate(fact, a)
+    rep.decide(ok, "loop-cap", "arnoldi_fact:clip", f"max_iters is clipped to `{clip_txt}`" + ("" if ok else f"; required min(max_iters, {a}.shape[0])"),
                detail="" if ok else "clip", locs=[idx.loc(fact.module, fact.node)])
     loops = [l for l in lp.find_loops(idx, fact) if l.kind != "for"]
     if not loops:
@@ -49,6 +47,9 @@ def run(idx, rep, tier):
             v = okc if okc is not True else (True if consistent else (False if start in (0, 1) else None))
             rep.decide(v, "loop-cap", "arnoldi_fact:loop", f"cond contains `{cert['expr']}`; {why}; counter starts at {start}", detail="" if v is not False else "off-by-one",
                        locs=[idx.loc(fact.module, l.call)])
+        okq, whyq = lp.batch_quantifier(idx, l)
+        rep.decide(okq, "batch-quantifier", "arnoldi_fact:cond", whyq, detail="" if okq is not False else "quantifier", locs=[idx.loc(fact.module, l.call)])
+        basis_aliasing(idx, rep, l, "arnoldi_fact:body")
     # ---- buffers: zeros, sized by the requested cap
     # roles by position in init_arnoldi's returned state (slot 0 = basis Q, slot 1 = Hessenberg H), not by local name
     bufs = {}
@@ -219,6 +220,8 @@ def run(idx, rep, tier):
         rep.decide(ok_, "runner-transparency", "while_loop_winfo", text_, detail="" if ok_ else "extra-exit", locs=[idx.loc(f_.module, node_)])
     rep.floor("buffer-dtype", 2)
     rep.floor("loop-cap", 2)
+    rep.floor("batch-quantifier", 1)
+    rep.floor("basis-aliasing", 1)
     rep.floor("buffers", 2)
     rep.floor("normalisation-floor", 1)
     rep.floor("projection", 1)
